@@ -30,6 +30,7 @@ def run(tier):
         'escaping main() other than SystemExit is reported with the argv the solver chose.')
     run.bounds = ['74 templates x 18 tokens per slot (second/third slot: %s)' % ('6/3 tokens, no missing/extra argument' if tier == 'quick' else '18/6 tokens; missing, extra argument, verbose'),
                   'random sub-commands run under one deterministic draw stream']
+    run.bounds += ['26 dense random requests x 5 deterministic draw streams that reach the fallback code (restart chains that never end under a constant stream are cut)', '22 file-naming command lines x 5 kinds of OSError raised by a stubbed open()', '12 LaTeX command lines with 0, 34, 35, 36, 45, 70 rows against a strict page reader']
     run.outside = ['argv outside the grammar (the space of all strings is not enumerable; symbolic str argv does not confirm with this tool)', 'interactive terminals (isatty), pager, signals']
     run.assumptions = ['stub: setup_SIGINT -> no-op; sys.stdin/stdout/stderr -> string buffers; builtins.open -> virtual input files for the malformed-file cases',
                        'the strict readers of C06/C12 define "a complete formula of the chosen format"']
